@@ -3,6 +3,7 @@ import Rdpgw.Props.C02
 import Rdpgw.Props.C04
 import Rdpgw.Props.C15
 import Rdpgw.Props.C13
+import Rdpgw.Props.C05
 
 /-! Oracle commands for policy and tokens: `checkhost`, `installed`, `clientaddr`, `cookie`. -/
 
@@ -82,5 +83,39 @@ def cmdOidcCallback (m : List (String × String)) : String :=
   let s : Session := ⟨getBool m "sess", getHex m "suser", []⟩
   let r := callback f s
   s!"{r.1} auth={b01 r.2.authenticated} user={hexOf r.2.user} connect={connect r.2}"
+
+end Rdpgw.Oracle
+
+namespace Rdpgw.Oracle
+
+open Rdpgw Rdpgw.Http in
+/-- `route openid= kerberos= basic= ntlm= cred=none|other|basic:<u>:<p>|ntlm:<hex>|negotiate:<hex>
+    hasntlm= hasneg= hasbasic= basicok= ntlmres=err|reject|challenge|ok:<hex> spnego=none|<hex>` -/
+def cmdRoute (m : List (String × String)) : String :=
+  let mech : Mechs := ⟨getBool m "openid", getBool m "kerberos", getBool m "basic", getBool m "ntlm"⟩
+  let cred : Cred :=
+    match (get m "cred").splitOn ":" with
+    | ["none"] => .none
+    | ["basic", u, p] => .basic ((unhex u).getD []) ((unhex p).getD [])
+    | ["ntlm", x] => .ntlm ((unhex x).getD [])
+    | ["negotiate", x] => .negotiate ((unhex x).getD [])
+    | _ => .other
+  let ntlmres := get m "ntlmres"
+  let b : Backend :=
+    { basicOk := fun _ _ => getBool m "basicok",
+      ntlm := fun _ =>
+        if ntlmres = "err" then none
+        else if ntlmres.startsWith "ok:" then some (some ((unhex (ntlmres.drop 3).toString).getD []))
+        else some none,
+      ntlmChallenge := fun _ => ntlmres = "challenge",
+      spnego := fun _ => if get m "spnego" = "none" ∨ get m "spnego" = "" then none else some (getHex m "spnego") }
+  let r : Req := ⟨cred, getBool m "hasntlm", getBool m "hasneg", getBool m "hasbasic"⟩
+  let chs (c : Challenge) : String := match c with | .ntlm => "NTLM" | .negotiate => "Negotiate" | .basic => "Basic"
+  match route mech b r with
+  | .handler none => "handler:none"
+  | .handler (some u) => s!"handler:{hexOf u}"
+  | .unauthorized cs => "401:" ++ ",".intercalate (cs.map chs)
+  | .notFound => "404"
+  | .serverError => "500"
 
 end Rdpgw.Oracle
